@@ -206,7 +206,7 @@ pub fn run(ctx: &mut Ctx) {
             }
         }
     }
-    let n = if ctx.thorough() { 200_000 } else { 20_000 };
+    let n = if ctx.thorough() { 1_000_000 } else { 20_000 };
     for _ in 0..n {
         idx += 1;
         if !ctx.begin_case(idx, "apply-random") {
